@@ -1489,12 +1489,14 @@ package ucfg
 //@ checks-pre (*context).path chaseTypePointers raiseExpectedObject raiseKeyInvalidTypeUnpack raiseValidation
 //@ uses chase tconfig
 //@ at-call (Value).Convert requires convTo(rvType(v), t)
+//@ at-call reifyPrimitive requires rtKind(baseType) != 17
+//@ note C06: arrays are containers - an array that has to be created (behind a nil pointer, as the element of a map or list) is filled entry by entry, never read as one primitive
 //@ requires t != nil
 //@ modifies tree(opts.opts)
 //@ ensures [scope !unproved] opts.opts.activeFields == old(opts.opts.activeFields)
 //@ ensures [interface_validated @C04] err == nil && t == chasedT(t) && rtKind(t) == 20 && rtNumMethod(t) == 0 ==> accepts(opts.validators, rvAny(r))
 //@ ensures [map_validated @C04] err == nil && !convTo(old(tConfigPtr), ptrTo(chasedT(t))) && rtKind(chasedT(t)) == 21 ==> recValidW(chasedP(r), opts.validators)
-//@ ensures [container_typed @C06] err == nil && !convTo(old(tConfigPtr), ptrTo(chasedT(t))) && (rtKind(chasedT(t)) == 21 || rtKind(chasedT(t)) == 23) ==> rvType(r) == t
+//@ ensures [container_typed @C06] err == nil && !convTo(old(tConfigPtr), ptrTo(chasedT(t))) && (rtKind(chasedT(t)) == 21 || rtKind(chasedT(t)) == 23 || rtKind(chasedT(t)) == 17) ==> rvType(r) == t
 
 // reifyMergeValue: the scope clause is the summary reifyMap relies on (assumed: the function is a reflect-driven
 // dispatcher); what is proved here is that every callee precondition holds at its call site - in particular
@@ -2560,9 +2562,12 @@ package ucfg
 //@ loop 1 invariant rvKind(val) == 25
 
 //@ func reifyArray :: opts, to, tTo, val -> r, err
-//@ props C07
+//@ props C07 C06
 //@ sweep
+//@ checks-pre reifyDoArray
 //@ requires rtKind(tTo) == 17 && rvKind(to) == 17 && rvCanSet(to)
+//@ requires opts.opts != nil
+//@ ensures [same_handle @C06] err == nil ==> r == to
 
 // the two Elem calls below are on pointer handles made from package-level types (tConfigPtr) or from a
 // *regexp.Regexp: their kind is a fact about package initialisation / boxing that is not modelled
